@@ -14,7 +14,7 @@ KANI_TECH = "bounded model checking of the compiled Rust code (Kani/CBMC + CaDiC
 KANI = {
  "C24": ("model_checking", "4 (C24)", "u64 parsers of qp-wormhole-inputs: total (no panic) and accept exactly the reference layout predicate with field-exact results, for every vector of the covered lengths; felt-based parsers not covered."),
  "C25": ("model_checking", "4 (C25)", "Integer limb codecs and digest validation over their full input width; edge byte encoding round-trips (hence injective) for every string of length <= 9; 1 MiB cap rejection; quantization only near the cap."),
- "C26": ("model_checking", "4 (C26)", "Compact hash accepts exactly aligned canonical input and feeds the limb sequence to the sponge; node hashing errs exactly on a non-canonical limb, sorts, and is invariant under child swaps (first-limb-symbolic children)."),
+ "C26": ("model_checking", "4 (C26)", "Compact hash: accepts exactly 8-byte-aligned input whose limbs are all below p (lengths 0,7,8,(9,16,)24 symbolic content), hands exactly the limb sequence to the sponge (injective on the accepted domain), rejects > 1 MiB; the node-hash clauses of C26 are not covered."),
  "C28": ("model_checking", "4 (C28)", "validate_circuit_config == the documented conjunction for every value of the nine numeric knobs (full usize width)."),
  "C29": ("model_checking", "4 (C29)", "validate_proof_count exact over all usize; layout length exact for counts <= 64; the public-batch parser rejects out-of-range counts (incl. usize::MAX) before layout arithmetic."),
 }
